@@ -124,7 +124,9 @@ def exchange(rng, names, max_notifs=3, err_cls=None, k=0):
     if err_cls is not None or rng.random() < 0.3:
         reply = error_reply(rng, err_cls)
     else:
-        res = template(c["h"], rng) if c["h"] != "send_message" else obj(rng, 3)
+        # a typed helper mostly gets a result of its shape; now and then any object (its validation
+        # then decides — the same way on every carrier)
+        res = template(c["h"], rng) if (c["h"] != "send_message" and rng.random() < 0.9) else obj(rng, 3)
         if rng.random() < 0.25:
             res = dict(res)
             res["x-extra"] = value(rng, 2)
